@@ -383,6 +383,65 @@ def handover_two_clients(sx, pads1, pads2, miu1, miu2, small_hi):
     return [len(l.sent['s']) for l in links]
 
 
+def snep_two_clients(sx, n1, n2, miu1, miu2, small_hi):
+    """two connections to the SAME SnepServer object, both in the middle of a
+    fragmented PUT at the same time: client 1 (driven fragment by fragment)
+    sends its first fragment and gets Continue, then client 2 (a SnepClient)
+    puts a fragmented message of its own, then client 1 sends its remaining
+    fragments.  What the server keeps while it reassembles a request belongs
+    to one connection."""
+    m1 = choose_miu(sx, "miu1", miu1, small_hi)
+    m2 = choose_miu(sx, "miu2", miu2, small_hi)
+    nfc.snep.server.ndef = NdefStub
+    links = [Link(m1, m1), Link(m2, m2)]
+    server = Server(FakeLLC(links[0], 's'), 0x100000, b"")
+    for link in links:
+        listen = nfc.llcp.Socket(FakeLLC(link, 's'), nfc.llcp.DATA_LINK_CONNECTION)
+        listen.bind("urn:nfc:sn:snep")
+        conn = listen.accept()
+        link.start_server(lambda conn=conn: server._serve(conn))
+    msg1 = sx.bytes("a", n1)
+    msg2 = sx.bytes("b", n2)
+    req1 = [0x10, 0x02, 0, 0, n1 >> 8, n1 & 0xFF] + list(msg1)
+    m1c = sx.concrete(m1)
+    frags = [sx.mkbytes(req1[i:i + m1c], False) for i in range(0, len(req1), m1c)]
+    if len(frags) < 2:
+        sx.assume(False, "request of client 1 fits one fragment")
+    sock = nfc.llcp.Socket(FakeLLC(links[0], 'c'), nfc.llcp.DATA_LINK_CONNECTION)
+    client2 = nfc.snep.client.SnepClient(FakeLLC(links[1], 'c'))
+    first = last = r2 = None
+    try:
+        try:
+            sock.connect("urn:nfc:sn:snep")
+            sock.send(frags[0])
+            first = sock.recv()
+            r2 = client2.put_octets(msg2)
+            for f in frags[1:]:
+                sock.send(f)
+            last = sock.recv()
+            sock.close()
+            for link in links:
+                link.finish()
+        except Deadlock:
+            sx.check(False, "snep-two-clients:deadlock")
+    finally:
+        for link in links:
+            link.abort()
+    sx.check(first is not None and bytes(first) == b"\x10\x80\0\0\0\0", "snep-two-clients:no-continue-for-client1")
+    sx.check(r2 is True, "snep-two-clients:put-of-client2-not-true")
+    sx.check(last is not None and bytes(last) == b"\x10\x81\0\0\0\0", "snep-two-clients:no-success-for-client1")
+    sx.check(len(server.seen) == 2, "snep-two-clients:handler-calls-differ-from-requests")
+    if len(server.seen) == 2:
+        sx.check(server.seen[0][0] == "put" and same(sx, server.seen[0][1], msg2),
+                 "snep-two-clients:message-of-client2-not-delivered-intact")
+        sx.check(server.seen[1][0] == "put" and same(sx, server.seen[1][1], msg1),
+                 "snep-two-clients:message-of-client1-not-delivered-intact")
+    sx.reach("snep-two-clients:both-mid-request")
+    if len(links[1].sent['c']) > 1:
+        sx.reach("snep-two-clients:client2-fragmented")
+    return [len(l.sent['c']) for l in links]
+
+
 # ----------------------------------------------------------------------------
 # the small symbolic MIU stands for the real range only if the code treats
 # the MIU as an opaque integer: checked on the syntax tree on every run
@@ -536,13 +595,17 @@ def partitions(tier):
             pads1=[[3, 40], [9, 200]] if a != "sym" else [[0, 20], [3, 30]],
             pads2=[[5, 60]] if a != "sym" else [[1, 25]],
             miu1=a, miu2=b, small_hi=24)))
+    for nm, a, b, n1, n2 in (("sym-sym", "sym", "sym", 30, 33), ("128-128", "128", "128", 300, 310),
+                             ("128-2175", "128", "2175", 400, 2300)):
+        parts.append(dict(name="snep-two-clients:" + nm, fn="snep_two_clients", params=dict(
+            n1=n1, n2=n2, miu1=a, miu2=b, small_hi=14)))
     ho("handover-two:sym", [[[0, 0], [1, 1]], [[5, 30], [20, 2]]], "sym", "sym")
     ho("handover-two:128", [[[0, 0], [1, 1]], [[100, 90], [20, 130]]], "128", "128")
     parts += c06_stack.partitions(tier)     # the same over the real LLCP stack
     return parts
 
 
-MUST_REACH = ["handover-two-clients:exchanged", "handover-two-clients:response-fragmented", "put:delivered", "put:fragmented", "put:refused", "get:returned",
+MUST_REACH = ["snep-two-clients:both-mid-request", "snep-two-clients:client2-fragmented", "handover-two-clients:exchanged", "handover-two-clients:response-fragmented", "put:delivered", "put:fragmented", "put:refused", "get:returned",
               "get:excess-data", "get:refused", "get:response-fragmented",
               "get:request-fragmented", "handover:exchanged",
               "handover:request-fragmented", "handover:response-fragmented",
@@ -558,7 +621,7 @@ BOUNDS = {
     "length-2..length+2; MIU 128, 129 (lengths k*MIU-14..k*MIU+8, k<=2, every "
     "3rd) and 2175 (k=1).  Handover: concrete well-formed Hr/Hs messages "
     "(53+pad / 46+pad octets, 8 pads) with MIU symbolic 6..12, and around "
-    "128/129/2175; two requests on one connection",
+    "128/129/2175; two requests on one connection; two connections to one SnepServer, both mid-request (messages of 30/33 octets with symbolic MIUs 6..14, 300/310 with MIU 128, 400/2300 with MIUs 128/2175)",
     "thorough": "as quick with MIU symbolic 6..24, every length 0..79, an 8x12 "
     "GET grid, MIU 128/129 with k<=4 and 2175 with k<=2 at every length, "
     "handover pads 0..47",
